@@ -657,8 +657,13 @@ func hookTags() string {
 	t := "verif"
 	if !hookNode {
 		t += " verifnonode"
-	} else if !hookIter {
-		t += " verifnoiter"
+	} else {
+		if !hookIter {
+			t += " verifnoiter"
+		}
+		if !hookRaw {
+			t += " verifnoraw"
+		}
 	}
 	if !hookWalk {
 		t += " verifnowalk"
